@@ -143,7 +143,8 @@ def path_feasible(eng, p, limit=250000):
     from .relspec import leaves_of, ts_sweep
     if _TS_FEAS is None:
         sw = ts_sweep("quick")
-        _TS_FEAS = sw[::max(1, len(sw) // 25)] + sw[-12:]
+        from .relspec import stride as _stride
+        _TS_FEAS = sw[::_stride(len(sw), 25)] + sw[-12:]
     leaves = set()
     for c, t in p.conds:
         leaves_of(c, leaves)
